@@ -684,7 +684,7 @@ fn main() -> std::process::ExitCode {
         "C11",
         "3/4 of the cases: a generated digraph (gen_graph or a shaped family: chains with nested back edges, trees with cross edges, twin chains exchanging edges; 1-12 vertices, thorough also up to 40; sparse ids, usize::MAX) with EVERY vertex taken as root, all graph algorithms compared with brute-force definitions on the sub-graph reachable from that root; 1/4: an edit history of 1-50 insert/remove operations (duplicates and absent ids included) on a small initial graph compared with a set model after every step. Non-trivial = some root reaches >= 4 vertices of which >= 1 is a join (two reachable predecessors), or a history with >= 4 accepted and >= 1 rejected operations that removes a vertex having both in- and out-edges; distinct = (sorted in/out degree pairs of the reachable sub-graph, loop sizes, number of back edges, reducible, number of unreachable vertices, whether one feeds the reachable part) resp. (set of (operation, outcome), capped counts, final sizes)",
         Box::new(|tier: Tier| from_tape(tier.pick(420, 2700), move |t| decode(t, tier))),
-        |t| t.pick(80_000, 3_000_000),
+        |t| t.pick(500_000, 10_000_000),
         check,
     );
     spec.render = render;
